@@ -35,5 +35,7 @@ TNext == /\ l <= Len(Trace) /\ l' = l + 1
               [] E.ev = "move"  -> (IF written THEN Move ELSE UNCHANGED rvars) /\ Judge(E)
               [] E.ev = "mark"  -> Mark /\ Judge(E)
               [] E.ev = "reset" -> Reset /\ Judge(E)
+              [] E.ev = "panic" -> /\ UNCHANGED rvars       \* a query or operation of the real ring panicked (rest of the script dropped)
+                                   /\ PrintT(<<"VIOL", l, {"C19:panic"}>>)
 Consumed == TLCGet("stats").diameter - 1 = Len(Trace)
 =============================================================================
